@@ -111,6 +111,7 @@ type refResult struct {
 	errLine int // > 0: lexical error at this position
 	errCol  int
 	maxRun  int // longest run in bytes including its look-ahead character
+	maxKept int // the same over the runs whose text the reader must still hold: tokens that are emitted and runs ending in an error
 }
 
 var skipped = map[string]bool{"WS": true, "EOL": true, "COMMENT": true}
@@ -146,6 +147,11 @@ func (p *prog) tokenize(text string) refResult {
 		if j-si > res.maxRun {
 			res.maxRun = j - si
 		}
+		run := j - si
+		if j < len(text) {
+			_, sz := utf8.DecodeRuneInString(text[j:])
+			run += sz // the look-ahead character
+		}
 		if j == si {
 			// nothing matched at all: an unmatched blank is discarded, anything else is a lexical error
 			c, sz := utf8.DecodeRuneInString(text[i:])
@@ -165,10 +171,12 @@ func (p *prog) tokenize(text string) refResult {
 		}
 		term, acc := p.owner[st]
 		if !p.dfa.Accepting(st) || !acc {
+			res.maxKept = max(res.maxKept, run)
 			res.errLine, res.errCol = sline, scol
 			return res
 		}
 		if !skipped[term] {
+			res.maxKept = max(res.maxKept, run)
 			res.toks = append(res.toks, refTok{term, text[si:j], sroff, si, sline, scol})
 		}
 		i, roff, line, col = j, jroff, jline, jcol
@@ -386,7 +394,7 @@ func main() {
 				text := string(buf)
 				res := p.tokenize(text)
 				for _, half := range []int{4, 5, 8, 0} {
-					if half > 0 && res.maxRun > half-1 {
+					if half > 0 && res.maxKept > half-1 {
 						continue
 					}
 					// the real half size cannot be crossed by a short text: one length less is enough there
@@ -458,7 +466,7 @@ func main() {
 			}
 			for _, text := range texts {
 				jobs = append(jobs, job{p, 0, text})
-				if res := p.tokenize(text); res.maxRun <= 7 {
+				if res := p.tokenize(text); res.maxKept <= 7 {
 					jobs = append(jobs, job{p, 8, text})
 				}
 			}
@@ -498,7 +506,7 @@ func main() {
 				for pad := 0; pad <= 4*half+2; pad++ {
 					for _, text := range []string{strings.Repeat(" ", pad) + word + mb + word, strings.Repeat(" ", pad) + word + " " + mb + mb + word} {
 						// only texts whose longest run plus look-ahead fits in one half
-						if res := p.tokenize(text); res.maxRun <= half-1 {
+						if res := p.tokenize(text); res.maxKept <= half-1 {
 							jobs = append(jobs, job{p, half, text})
 						}
 					}
@@ -506,15 +514,86 @@ func main() {
 			}
 		}
 	}
-	// the property covers tokens that fit in one buffer half: drop every text whose longest run (token, skipped
-	// token or discarded blank) plus its look-ahead does not (e.g. a whitespace token spanning the whole padding)
+	// skipped tokens of any length (the reader never has to hold their text): a skipped token of L characters between
+	// two tokens, for every L around the sizes at which the reader's buffer halves and position stacks wrap - with the
+	// real half size, and with the tiny halves for every L up to five halves
+	for pi, p := range progs {
+		if !p.OK() {
+			continue
+		}
+		word := ""
+		for _, w := range []string{"ab", "if", "le", "42", "=", "+", "x1", "a", "z"} {
+			if res := p.tokenize(w); res.errLine == 0 && len(res.toks) == 1 {
+				word = w
+				break
+			}
+		}
+		var forms []func(int) string
+		for _, f := range []func(int) string{
+			func(l int) string { return strings.Repeat(" ", l) },
+			func(l int) string { return strings.Repeat("\n", l) },
+			func(l int) string { return strings.Repeat(" \n", l/2) + strings.Repeat(" ", l%2) },
+			func(l int) string { return strings.Repeat("5", l) },
+			func(l int) string { return strings.Repeat("6", l) },
+			func(l int) string { return strings.Repeat("7", l) },
+			func(l int) string { return "/*" + strings.Repeat("x", max(l-4, 0)) + "*/" },
+			func(l int) string { return "/*" + strings.Repeat("é\n", max(l-4, 0)/2) + "*/" },
+			func(l int) string { return "//" + strings.Repeat("x", max(l-3, 0)) + "\n" },
+			func(l int) string { return ";" + strings.Repeat("\n", max(l-1, 0)) },
+		} {
+			// the form is one skipped token of this program (not a sequence of individually discarded blanks)
+			if res := p.tokenize(f(12)); res.errLine == 0 && len(res.toks) == 0 && res.maxRun >= len(f(12)) {
+				forms = append(forms, f)
+			}
+		}
+		if word == "" || len(forms) == 0 {
+			continue
+		}
+		r.Add("programs_with_long_skipped_tokens", 1)
+		var sizes []int
+		for _, b := range []int{4096, 8192, 12288} {
+			for d := -3; d <= 3; d++ {
+				if r.Quick() && (d < -1 || d > 1) {
+					continue
+				}
+				sizes = append(sizes, b+d)
+			}
+		}
+		if !r.Quick() {
+			sizes = append(sizes, 16384, 16385, 20000, 40000)
+		}
+		for fi, f := range forms {
+			for _, l := range sizes {
+				if r.Quick() && (pi+fi)%2 != 0 && l > 4200 {
+					continue
+				}
+				jobs = append(jobs, job{p, 0, word + f(l) + word + "\n" + word})
+				jobs = append(jobs, job{p, 0, f(l) + word})
+			}
+			for _, half := range []int{4, 5, 8} {
+				if len(word)+1 > half-1 {
+					continue
+				}
+				for l := 1; l <= 5*half+1; l++ {
+					for _, text := range []string{word + f(l) + word + "\n" + word, f(l) + word + f(l), word + f(l) + f(3)} {
+						if res := p.tokenize(text); res.maxKept <= half-1 {
+							jobs = append(jobs, job{p, half, text})
+						}
+					}
+				}
+			}
+		}
+	}
+	// the property covers tokens that fit in one buffer half: drop every text in which the longest run whose text the
+	// reader must hold (an emitted token, or a run ending in an error) plus its look-ahead does not; skipped tokens and
+	// discarded blanks may be of any length
 	kept := jobs[:0]
 	for _, j := range jobs {
 		half := j.n
 		if half == 0 {
 			half = 4096
 		}
-		if res := j.p.tokenize(j.text); res.maxRun > half-1 {
+		if res := j.p.tokenize(j.text); res.maxKept > half-1 {
 			r.Add("texts_with_a_run_longer_than_a_half_dropped", 1)
 			continue
 		}
@@ -604,8 +683,8 @@ func main() {
 	r.Set("traces_validated_against_impl", r.Get("executions"))
 	r.Set("evaluations", r.Get("executions"))
 	r.Set("distinct_nontrivial", r.Get("executions"))
-	r.Set("rule", "per emitted program: every text up to the length bound over one representative per symbol class of its automaton plus blank, LF, multi-byte and unmatched characters, run with buffer halves 4, 5, 8 (texts whose longest run plus look-ahead fits in one half) and through New (4096); plus a padding sweep carrying tokens across offsets 4096 and 8192; plus 49 special characters (all C0 controls, DEL, NEL, every Unicode white-space / zero-width character, BOM, U+FFFD, U+10FFFF) alone and next to a token (only blank, tab, LF, CR may be discarded); states = distinct (program, half size, text length mod buffer size) reader configurations exercised; transitions = characters fed")
-	r.Assume("reference: maximal run without backtracking as the property states; WS/EOL/COMMENT skipped; an unmatched space, tab, LF or CR is discarded; offsets accepted in characters or in bytes if consistent; no token longer than one buffer half (the documented limit of the two-buffer scheme, docs/3-lexer_theory.md)")
+	r.Set("rule", "per emitted program: every text up to the length bound over one representative per symbol class of its automaton plus blank, LF, multi-byte and unmatched characters, run with buffer halves 4, 5, 8 (texts whose longest run plus look-ahead fits in one half) and through New (4096); plus a padding sweep carrying tokens across offsets 4096 and 8192; plus skipped tokens (blank runs, newline runs, comments) of every length around 4096, 8192 and 12288 characters between tokens (and of every length up to five halves with the tiny halves); plus 49 special characters (all C0 controls, DEL, NEL, every Unicode white-space / zero-width character, BOM, U+FFFD, U+10FFFF) alone and next to a token (only blank, tab, LF, CR may be discarded); states = distinct (program, half size, text length mod buffer size) reader configurations exercised; transitions = characters fed")
+	r.Assume("reference: maximal run without backtracking as the property states; WS/EOL/COMMENT skipped; an unmatched space, tab, LF or CR is discarded; offsets accepted in characters or in bytes if consistent; no emitted token (or erroneous run) longer than one buffer half (the documented limit of the two-buffer scheme, docs/3-lexer_theory.md); skipped tokens may be of any length")
 	r.Finish()
 }
 
